@@ -93,6 +93,12 @@ pub fn run(kv: &Args) -> i32 {
         muts.push(("B+G".into(), t, proof.s, y, base + ProjectivePoint::GENERATOR, mk(&ctx)));
         muts.push(("t+G".into(), t + ProjectivePoint::GENERATOR, proof.s, y, base, mk(&ctx)));
         muts.push(("t=-t".into(), -t, proof.s, y, base, mk(&ctx)));
+        // degenerate replacements: the identity as commitment / statement, zero and one as response
+        muts.push(("t=identity".into(), ProjectivePoint::IDENTITY, proof.s, y, base, mk(&ctx)));
+        muts.push(("t=identity,s=0".into(), ProjectivePoint::IDENTITY, Scalar::ZERO, y, base, mk(&ctx)));
+        muts.push(("s=0".into(), t, Scalar::ZERO, y, base, mk(&ctx)));
+        muts.push(("y=identity".into(), t, proof.s, ProjectivePoint::IDENTITY, base, mk(&ctx)));
+        muts.push(("t=y".into(), y, proof.s, y, base, mk(&ctx)));
         muts.push(("s+1".into(), t, proof.s + one, y, base, mk(&ctx)));
         muts.push(("s=-s".into(), t, -proof.s, y, base, mk(&ctx)));
         let mut c2 = mk(&ctx); c2.party += 1; muts.push(("party".into(), t, proof.s, y, base, c2));
